@@ -53,8 +53,10 @@ TEnd == /\ Ev.e = "End"
         /\ stage' = "start" /\ ocPipe' = "none" /\ ocGrout' = "none" /\ volsKept' = FALSE /\ fpMatched' = FALSE /\ rbMatched' = FALSE
 \* an event that no action accepts: reject the trace and move on
 TStuck == /\ ~(Ev.e = "Volumes" /\ stage = "start") /\ ~(Ev.e = "Radii" /\ stage = "radii")
-          /\ ~(Ev.e = "SolvePipeK" /\ stage = "pipeK") /\ ~(Ev.e = "SolveGroutK" /\ stage = "groutK") /\ Ev.e # "End"
-          /\ PrintT(<<"VERDICT", tid, "event " \o Ev.e \o " not allowed in stage " \o stage>>)
+          /\ ~(Ev.e = "SolvePipeK" /\ stage = "pipeK" /\ Ev.oc \in Outcomes)
+          /\ ~(Ev.e = "SolveGroutK" /\ stage = "groutK" /\ Ev.oc \in Outcomes) /\ Ev.e # "End"
+          /\ PrintT(<<"VERDICT", tid, "event " \o Ev.e \o " not allowed in stage " \o stage
+                                    \o (IF Ev.e \in {"SolvePipeK", "SolveGroutK"} /\ Ev.oc \notin Outcomes THEN " (the solve did not run)" ELSE "")>>)
           /\ tid' = tid + 1 /\ l' = 1 /\ fail' = "ok"
           /\ stage' = "start" /\ ocPipe' = "none" /\ ocGrout' = "none" /\ volsKept' = FALSE /\ fpMatched' = FALSE /\ rbMatched' = FALSE
 
